@@ -26,6 +26,22 @@ fn generous_context(toks: &[Tok]) -> Ctx {
             }
         }
     }
+    // the text of every string literal is bound as a variable as well, typed like the token that
+    // follows it: an operator that wrongly adopts two juxtaposed operands (`+= "a" 1`) would find
+    // its "target" defined and compatible. More bindings only make the context more generous.
+    for (i, t) in toks.iter().enumerate() {
+        if let Tok::Str(s) = t {
+            if !c.vars.contains_key(s) {
+                let v = match toks.get(i + 1) {
+                    Some(Tok::Float(_)) => RV::Float(2.5),
+                    Some(Tok::Bool(_)) => RV::Bool(false),
+                    Some(Tok::Str(_)) => RV::Str("s".into()),
+                    _ => RV::Int(3),
+                };
+                c.vars.insert(s.clone(), v);
+            }
+        }
+    }
     c
 }
 
@@ -255,9 +271,11 @@ pub fn run(rep: &Report) {
             check_tokens(&toks, l)
         });
     }
-    if rep.tier == vcore::Tier::Thorough {
+    {
+        // extended alphabet (string literal, `true`, `||`, `<`, `%=`, a second identifier): up to
+        // length 4 in the quick tier, 5 in the thorough tier
         let ext = refmodel::gen::extended_alphabet();
-        for len in 1..=5 {
+        for len in 1..=rep.tier.pick(4usize, 5) {
             let total = refmodel::gen::count_sequences(ext.len(), len);
             common::enumerate(rep, "sequences-extended", total, 8192, &|i, l| {
                 let mut toks = Vec::with_capacity(len);
